@@ -171,6 +171,7 @@ def plan(tier, seed):
     nshard = 12 if tier == "quick" else 28
     shards = [{"name": f"hist_{i:02d}", "kind": "hist", "n": n // nshard, "idx": i, "named": i % 3 == 0} for i in range(nshard)]
     shards.append({"name": "fuzz", "kind": "fuzz", "n": 3000 if tier == "quick" else 100000, "named": False})
+    shards.append({"name": "big", "kind": "big", "n": 2 if tier == "quick" else 30, "idx": 0, "named": False})
     return shards
 
 
@@ -189,6 +190,14 @@ def gen_history(rng):
     return hist
 
 
+def big_history(rng):
+    """One page that renders a few hundred component classes, each with js and css (default media cache)."""
+    n = rng.randint(160, 320)
+    classes = {f"c{i}": {"template": [["text", f"t{i}"]], "data": {}, "inject": [], "js": f"/*js:c{i}*/console.log({i});", "css": f"/*css:c{i}*/.c{i} {{ }}", "namekind": "ascii"} for i in range(n)}
+    prog = {"classes": classes, "page": [["comp", f"c{i}", {}, None] for i in range(n)], "page_ctx": {}}
+    return [{"prog": prog, "typ": typ, "route": rng.choice(["component", "template"]), "clear_before": False, "reuse": None if k == 0 else 0} for k, typ in enumerate(rng.sample(["fragment", "document"], 2))]
+
+
 def run_shard(spec, rec):
     env = Env(spec.get("named", False))
     rng = random.Random(f"{spec['seed']}-c19-{spec['name']}")
@@ -198,7 +207,9 @@ def run_shard(spec, rec):
         return
     rec.require("urls-fetched")
     for i in range(spec["n"]):
-        hist = gen_history(rng)
+        hist = gen_history(rng) if spec["kind"] != "big" else big_history(rng)
+        if spec["kind"] == "big":
+            rec.maxi("max:classes_with_scripts_on_one_page", len(hist[0]["prog"]["classes"]))
         nt = run_history(env, rec, hist, [spec["seed"], spec["name"], i])
         rec.case(hist, nontrivial=bool(nt))
         rec.count("renders", len(hist))
